@@ -420,3 +420,40 @@ func c02Run(depth, budget, llen, profile int) {
 	verifAssert(err == nil, "C02: a well-defined program failed to render")
 	verifAssert(out == string(ref.out), "C02: rendered output differs from the language semantics")
 }
+
+// H_forRange: {for}/{foreach} over range(...) with 1..3 integer arguments chosen through
+// solver-visible choices in [-3,4]: the body runs for start, start+step, ... while below (step>0)
+// or above (step<0) the limit; an empty range renders the ifempty block; step 0 is an error.
+func H_forRange(argc int) {
+	pick := func() int { return verifChoose(8) - 3 }
+	start, limit, step := 0, pick(), 1
+	args := strconv.Itoa(limit)
+	if argc >= 2 {
+		start = pick()
+		args = strconv.Itoa(start) + ", " + strconv.Itoa(limit)
+	}
+	if argc >= 3 {
+		step = pick()
+		args += ", " + strconv.Itoa(step)
+	}
+	src := "{namespace n}\n/** */\n{template .t}\n{foreach $i in range(" + args + ")}{$i},{ifempty}none{/foreach}|{for $j in range(" + args + ")}{$j};{/for}\n{/template}\n"
+	verifObserve("args", args)
+	tofu, cerr := verifCompileNoCheck(src)
+	verifAssert(cerr == nil, "C02: range loop does not parse")
+	out, err := verifRender(tofu, "n.t", data.Map{})
+	verifObserve("out", out)
+	if step == 0 {
+		verifAssert(err != nil, "C02: range with step 0 did not fail")
+		return
+	}
+	verifAssert(err == nil, "C02: range loop failed")
+	a, b := "", ""
+	for i := start; (step > 0 && i < limit) || (step < 0 && i > limit); i += step {
+		a += strconv.Itoa(i) + ","
+		b += strconv.Itoa(i) + ";"
+	}
+	if a == "" {
+		a = "none"
+	}
+	verifAssert(out == a+"|"+b, "C02: range loop does not run over start, start+step, ... up to the limit")
+}
